@@ -57,7 +57,10 @@ def cumsum_evaluator(P, **kw):
     return Evaluator(P, models=_models(), attr_models=am, method_models=mm, **kw)
 
 
-def _run_cumsum(P, pos, to, default_shifts=None, axnames=("AX",), axis_arg=None, extra_dims=("t",), mw=None, da_pos=None):
+_GIVEN = object()
+
+
+def _run_cumsum(P, pos, to, default_shifts=None, axnames=("AX",), axis_arg=None, extra_dims=("t",), mw=None, da_pos=None, boundary=_GIVEN, fill_value=_GIVEN):
     ev = cumsum_evaluator(P)
     fi = P.func("grid:Grid.cumsum")
 
@@ -68,7 +71,7 @@ def _run_cumsum(P, pos, to, default_shifts=None, axnames=("AX",), axis_arg=None,
         coords[Sym("aux_coord")] = (dims[-1],)  # ... and a non-index one on the shifted dimension
         da = make_da("da", dims, coords=coords)
         ax = axis_arg if axis_arg is not None else Sym(axnames[0])
-        return dict(self=g, da=da, axis=ax, to=to, boundary=Sym("USER_BOUNDARY"), fill_value=Sym("USER_FILL"),
+        return dict(self=g, da=da, axis=ax, to=to, boundary=Sym("USER_BOUNDARY") if boundary is _GIVEN else boundary, fill_value=Sym("USER_FILL") if fill_value is _GIVEN else fill_value,
                     metric_weighted=mw, keep_coords=Sym("USER_KEEP"))
 
     return ev.run_paths(fi, make)
@@ -187,6 +190,33 @@ def check(ctx):
                         ctx.report("R09.3", fi, "grid -> pad", f"cell {inst}: pad() is not given this grid")
                     else:
                         ctx.ok("R09.3", f"pad arguments {inst}", "caller's boundary, fill_value and the grid reach pad")
+
+    # an option the caller leaves out stays left out on its way to pad() (so that the Grid-level setting applies there)
+    for what, kw in (("a rule without a fill value", dict(fill_value=None)), ("a fill value without a rule", dict(boundary=None)), ("neither", dict(boundary=None, fill_value=None))):
+        inst = f"cumsum center->left called with {what}"
+        try:
+            outs = _run_cumsum(P, "center", "left", **kw)
+        except Unmodelled as e:
+            ctx.unknown("R09.3", inst, str(e))
+            continue
+        from .c02 import same_option
+
+        bad = None
+        for o in outs:
+            pads = [e for e in (o.value.eff if o.kind == "return" and isinstance(o.value, Obj) else ()) if e[0] == "PAD"]
+            if len(pads) != 1:
+                bad = f"{o.kind} {o.value!r}: exactly one pad() expected"
+                continue
+            want_b = None if "boundary" in kw else Sym("USER_BOUNDARY")
+            want_f = None if "fill_value" in kw else Sym("USER_FILL")
+            if not same_option(P, "boundary", pads[0][2], want_b):
+                bad = f"pad() receives boundary={pads[0][2]!r} although the caller gave {'none' if want_b is None else 'one'}: the Grid-level rule no longer applies"
+            elif not same_option(P, "fill_value", pads[0][3], want_f):
+                bad = f"pad() receives fill_value={pads[0][3]!r} although the caller gave {'none' if want_f is None else 'one'}: the Grid-level fill value no longer applies"
+        if bad:
+            ctx.report("R09.3", fi, inst, bad)
+        else:
+            ctx.ok("R09.3", inst, "left out all the way to pad()")
 
     # ---------------- R09.3 default shift / mapping / order
     for pos in POSITIONS:
